@@ -1360,6 +1360,10 @@ var (
 	routeABCD = route{Name: "A-B-C-D", Chains: []int{0, 1, 2, 3}}
 )
 
+// Run executes the packet-forward exploration on behalf of another check (C31 covers the packet-forward
+// refund moves of the tracked total escrow with it); violations are reported under the calling check's id.
+func Run(c *core.C) { run(c) }
+
 func run(c *core.C) {
 	var parts []ksim.Part
 	add := func(name string, sc *FW, depth int, share float64) {
